@@ -166,3 +166,40 @@ def flat_params(p):
     txt = coq_prog(p)
     return {'target': 'Reread' if 'Write Reread' in txt else 'Local' if 'Write Local' in txt else 'none',
             'guard': 'IfNonEmpty' in txt, 'lock': 'Lock' in txt}
+
+
+def call_view_reads_only(fn):
+    """_call_view: the list returned by _find_views (it is the very object stored in the cache) may only be iterated.
+    Any other use of the name (method call, subscript, passing it on, rebinding) is reported."""
+    target = None
+    for st in ast.walk(fn):
+        if isinstance(st, ast.Assign) and isinstance(st.value, ast.Call) and u(st.value.func) == '_find_views':
+            if len(st.targets) != 1 or not isinstance(st.targets[0], ast.Name) or target is not None:
+                raise Unknown('result of _find_views bound in an unexpected way')
+            target = st.targets[0].id
+    if target is None:
+        raise Unknown('_call_view does not call _find_views')
+    iters = [id(n.iter) for n in ast.walk(fn) if isinstance(n, ast.For) and isinstance(n.iter, ast.Name)]
+    uses = 0
+    for n in ast.walk(fn):
+        if isinstance(n, ast.Name) and n.id == target:
+            if isinstance(n.ctx, ast.Store):
+                continue
+            if id(n) in iters:
+                uses += 1
+                continue
+            raise Unknown('%s is used other than as the iterable of a for loop (line %d)' % (target, n.lineno))
+    for n in ast.walk(fn):
+        if isinstance(n, ast.Attribute) and n.attr == '_view_lookup_cache':
+            raise Unknown('_call_view touches the cache directly')
+    if uses != 1:
+        raise Unknown('%s is iterated %d times' % (target, uses))
+    return True
+
+
+def register_view_clears(fn):
+    """register_view must not clear the cache itself (a conditional clear is not expressible as a program)"""
+    for n in ast.walk(fn):
+        if isinstance(n, ast.Attribute) and n.attr in ('_clear_view_lookup_cache', '_view_lookup_cache'):
+            raise Unknown('register_view touches the view lookup cache (line %d)' % n.lineno)
+    return False
